@@ -38,7 +38,7 @@ type Store interface {
 	RealCode() bool
 }
 
-var Kinds = []string{"ctl", "rmap", "nmap", "nstruct", "rstruct", "nacc"}
+var Kinds = []string{"ctl", "rmap", "nmap", "nstruct", "rstruct", "nacc", "nstruct0"}
 
 func New(kind string) (Store, error) {
 	base, mask, err := SplitKind(kind)
@@ -56,6 +56,8 @@ func New(kind string) (Store, error) {
 		return &Struct{useNode: true, hooks: mask}, nil
 	case "rstruct":
 		return &Struct{hooks: mask}, nil
+	case "nstruct0":
+		return &Struct{useNode: true, plain: true, hooks: mask}, nil
 	case "nacc":
 		return &Acc{hooks: mask}, nil
 	}
